@@ -134,7 +134,9 @@ def poisson_case(draw):
                 eps=math.exp(draw(st.floats(math.log(1e-3), math.log(5e-2)))), nboot=draw(st.integers(max(4, k + 2), 8)),
                 multinom=draw(st.booleans()), log=log, perm_seed=draw(st.integers(0, 2 ** 31 - 1)),
                 nested=sorted(draw(st.lists(st.integers(0, k - 1), min_size=1, max_size=k, unique=True))),
-                off_mle=draw(st.floats(0.0, 0.2)))
+                off_mle=draw(st.floats(0.0, 0.2)),
+                # relative theta of each bootstrap (boot_theta_adjusts; only meaningful without multinom): up to 8 values
+                adjusts=[draw(st.sampled_from([0.7, 0.85, 1.0, 1.15, 1.3])) for _ in range(8)] if draw(st.booleans()) else None)
 
 
 class LinModel:
@@ -150,7 +152,10 @@ class LinModel:
         p = np.array(case['p'])
         mean = (self.B0 + p @ self.B) * (3.0 if case['multinom'] else 1.0)    # theta_opt ~ 3 under multinom (log(theta) safely > 0)
         self.data = rs.poisson(mean * (1 + case['off_mle'] * rs.uniform(-1, 1, self.n + 1))).astype(float)
-        self.boots = [rs.poisson(mean).astype(float) for _ in range(case['nboot'])]
+        self.adjusts = None
+        if case.get('adjusts') and not case['multinom']:
+            self.adjusts = [float(a) for a in case['adjusts'][:case['nboot']]]
+        self.boots = [rs.poisson(mean * (self.adjusts[i] if self.adjusts else 1.0)).astype(float) for i in range(case['nboot'])]
 
     def func(self, params, ns, pts):
         params = np.asarray(params, float)
@@ -189,7 +194,7 @@ class LinModel:
         return g, H
 
 
-def closed_forms(model, case, q, subset=None, log=False):
+def closed_forms(model, case, q, subset=None, log=False, use_adjusts=True):
     multinom = case['multinom']
     g, Hll = model.grad_hess(q, model.data, multinom)
     idx = list(range(len(q))) if subset is None else list(subset)
@@ -198,8 +203,8 @@ def closed_forms(model, case, q, subset=None, log=False):
         Hll = P @ Hll @ P + np.diag(q * g)
     H = -Hll[np.ix_(idx, idx)]
     Us = []
-    for b in model.boots:
-        gb, _ = model.grad_hess(q, b, multinom)
+    for bi, b in enumerate(model.boots):
+        gb, _ = model.grad_hess(q, b, multinom, theta_adjust=(model.adjusts[bi] if (model.adjusts and use_adjusts) else 1.0))
         if log:
             gb = q * gb
         Us.append(gb[idx])
@@ -226,8 +231,9 @@ def r3(case, rec):
         q = np.array(p0 + [theta])
     else:
         q = np.array(p0)
-    rec.case(case, k >= 2, ['k=%d' % k, 'multinom' if multinom else 'poisson', 'log' if log else 'linear-scale'])
+    rec.case(case, k >= 2, ['k=%d' % k, 'multinom' if multinom else 'poisson', 'log' if log else 'linear-scale', 'theta-adjusts' if model.adjusts else 'no-adjusts'])
     tol = 20 * eps ** 2 + 1e-7
+    adjkw = dict(boot_theta_adjusts=list(model.adjusts)) if model.adjusts else {}
     Godambe.cache.clear()
     try:
         H, J, cU, GIM = closed_forms(model, case, q, log=log)
@@ -237,7 +243,7 @@ def r3(case, rec):
         with dadi_call('FIM_uncert'):
             fim = Godambe.FIM_uncert(model.func, pts, p0, data, log=log, multinom=multinom, eps=eps)
         with dadi_call('GIM_uncert'):
-            gim, G_mat, H_mat = Godambe.GIM_uncert(model.func, pts, boots, p0, data, log=log, multinom=multinom, eps=eps, return_GIM=True)
+            gim, G_mat, H_mat = Godambe.GIM_uncert(model.func, pts, boots, p0, data, log=log, multinom=multinom, eps=eps, return_GIM=True, **adjkw)
     except Violation as v:
         if 'LinAlgError' in v.msg:
             raise Reject()
@@ -254,7 +260,8 @@ def r3(case, rec):
     rs = np.random.RandomState(case['perm_seed'])
     perm = rs.permutation(len(boots))
     with dadi_call('GIM_uncert (permuted bootstraps)'):
-        gim2 = Godambe.GIM_uncert(model.func, pts, [boots[i] for i in perm], p0, data, log=log, multinom=multinom, eps=eps)
+        gim2 = Godambe.GIM_uncert(model.func, pts, [boots[i] for i in perm], p0, data, log=log, multinom=multinom, eps=eps,
+                                  **(dict(boot_theta_adjusts=[model.adjusts[i] for i in perm]) if model.adjusts else {}))
     require_close(gim2, gim, 1e-9, 'GIM_uncert with the bootstraps in another order', rec, key='boot-order')
     # nested-parameter statistics (always on the natural scale)
     nested = case['nested']
@@ -263,9 +270,15 @@ def r3(case, rec):
         return
     cHn, cJn = np.linalg.cond(Hn), np.linalg.cond(Jn)
     with dadi_call('LRT_adjust'):
-        adj = Godambe.LRT_adjust(model.func, pts, boots, p0, data, nested, multinom=multinom, eps=eps)
+        adj = Godambe.LRT_adjust(model.func, pts, boots, p0, data, nested, multinom=multinom, eps=eps, **adjkw)
     e_adj = len(nested) / np.trace(Jn @ np.linalg.inv(Hn))
     require_close(adj, e_adj, tol * (5 + 2 * cHn + 2 * cJn), 'LRT_adjust vs closed form', rec, key='LRT')
+    if model.adjusts:
+        # Wald_stat and score_stat do not take boot_theta_adjusts: their closed forms use unadjusted bootstrap scores
+        Hn, Jn, cUn, Gn = closed_forms(model, case, q, subset=nested, log=False, use_adjusts=False)
+        if np.linalg.cond(Jn) > 300 or np.linalg.cond(Hn) > 300:
+            return
+        cHn, cJn = np.linalg.cond(Hn), np.linalg.cond(Jn)
     full = list(np.array(p0) * (1 + 0.1 * rs.uniform(-1, 1, k)))
     with dadi_call('Wald_stat'):
         w_adj, w_org = Godambe.Wald_stat(model.func, pts, boots, p0, data, nested, full, multinom=multinom, eps=eps, adj_and_org=True)
